@@ -110,3 +110,345 @@ pub fn hwalk(payload: &[u8]) -> (Vec<HWalkItem>, bool) {
     }
     (items, false)
 }
+
+/// Boot-information side of the reference model: spec encoders written from
+/// the layouts in DESIGN Appendix A.  All images are *unpadded* (exactly
+/// `size` bytes).
+pub mod bi {
+    use super::*;
+
+    pub const END: u32 = 0;
+    pub const CMDLINE: u32 = 1;
+    pub const BOOTLOADER: u32 = 2;
+    pub const MODULE: u32 = 3;
+    pub const MEMINFO: u32 = 4;
+    pub const BOOTDEV: u32 = 5;
+    pub const MMAP: u32 = 6;
+    pub const VBE: u32 = 7;
+    pub const FRAMEBUFFER: u32 = 8;
+    pub const ELF: u32 = 9;
+    pub const APM: u32 = 10;
+    pub const EFI32: u32 = 11;
+    pub const EFI64: u32 = 12;
+    pub const SMBIOS: u32 = 13;
+    pub const ACPI1: u32 = 14;
+    pub const ACPI2: u32 = 15;
+    pub const NETWORK: u32 = 16;
+    pub const EFI_MMAP: u32 = 17;
+    pub const EFI_BS: u32 = 18;
+    pub const EFI32_IH: u32 = 19;
+    pub const EFI64_IH: u32 = 20;
+    pub const LOAD_BASE: u32 = 21;
+    pub const CUSTOM: u32 = 0x1337;
+
+    pub const KIND_NAMES: [&str; 22] = [
+        "End", "Cmdline", "BootLoaderName", "Module", "BasicMeminfo", "Bootdev", "Mmap", "Vbe", "Framebuffer",
+        "ElfSections", "Apm", "Efi32", "Efi64", "Smbios", "AcpiV1", "AcpiV2", "Network", "EfiMmap", "EfiBs",
+        "Efi32Ih", "Efi64Ih", "LoadBaseAddr",
+    ];
+    pub fn kind_name(t: u32) -> &'static str {
+        if (t as usize) < 22 {
+            KIND_NAMES[t as usize]
+        } else {
+            "Custom"
+        }
+    }
+    /// Size of the fixed part of each kind (offset of the variable part for
+    /// DST kinds, spec size for sized kinds).
+    pub fn fixed_size(t: u32) -> usize {
+        match t {
+            END | EFI_BS => 8,
+            CMDLINE | BOOTLOADER | NETWORK => 8,
+            MODULE | MMAP | SMBIOS | EFI_MMAP => 16,
+            MEMINFO | EFI64 | EFI64_IH => 16,
+            BOOTDEV | ELF => 20,
+            VBE => 784,
+            FRAMEBUFFER => 32,
+            APM | ACPI1 => 28,
+            EFI32 | EFI32_IH | LOAD_BASE => 12,
+            ACPI2 => 44,
+            _ => 8,
+        }
+    }
+    pub fn is_dst(t: u32) -> bool {
+        matches!(t, CMDLINE | BOOTLOADER | MODULE | MMAP | FRAMEBUFFER | ELF | SMBIOS | NETWORK | EFI_MMAP) || t > 21
+    }
+
+    pub fn tag(typ: u32, body: &[u8]) -> Vec<u8> {
+        let mut v = Vec::with_capacity(8 + body.len());
+        v.extend_from_slice(&typ.to_le_bytes());
+        v.extend_from_slice(&((8 + body.len()) as u32).to_le_bytes());
+        v.extend_from_slice(body);
+        v
+    }
+    pub fn end_tag() -> Vec<u8> {
+        tag(END, &[])
+    }
+    /// Build a region: 8-byte header (total size, reserved 0) + each tag
+    /// padded to 8 with `pad(tag index, byte index)`.
+    pub fn region(tags: &[Vec<u8>], pad: &dyn Fn(usize, usize) -> u8) -> Vec<u8> {
+        let mut v = vec![0u8; 8];
+        for (ti, t) in tags.iter().enumerate() {
+            v.extend_from_slice(t);
+            let mut k = 0;
+            while v.len() % 8 != 0 {
+                v.push(pad(ti, k));
+                k += 1;
+            }
+        }
+        let n = v.len() as u32;
+        wr32(&mut v, 0, n);
+        v
+    }
+    pub fn zero_pad(_: usize, _: usize) -> u8 {
+        0
+    }
+    pub fn marker_pad(t: usize, k: usize) -> u8 {
+        0xF0 | (((t * 3 + k) & 0x7) as u8) | 0x08
+    }
+
+    fn body(n: usize, salt: usize) -> Vec<u8> {
+        (0..n).map(|i| marker(i + 8, salt)).collect()
+    }
+
+    // ---- encoders (little-endian, literal offsets) -------------------------
+    pub fn enc_string(typ: u32, text_with_nul: &[u8]) -> Vec<u8> {
+        tag(typ, text_with_nul)
+    }
+    pub fn enc_module(start: u32, end: u32, text_with_nul: &[u8]) -> Vec<u8> {
+        let mut b = Vec::new();
+        b.extend_from_slice(&start.to_le_bytes());
+        b.extend_from_slice(&end.to_le_bytes());
+        b.extend_from_slice(text_with_nul);
+        tag(MODULE, &b)
+    }
+    pub fn enc_meminfo(lower: u32, upper: u32) -> Vec<u8> {
+        let mut b = Vec::new();
+        b.extend_from_slice(&lower.to_le_bytes());
+        b.extend_from_slice(&upper.to_le_bytes());
+        tag(MEMINFO, &b)
+    }
+    pub fn enc_bootdev(biosdev: u32, partition: u32, sub: u32) -> Vec<u8> {
+        let mut b = Vec::new();
+        for x in [biosdev, partition, sub] {
+            b.extend_from_slice(&x.to_le_bytes());
+        }
+        tag(BOOTDEV, &b)
+    }
+    pub fn enc_mmap(entry_size: u32, version: u32, entries: &[(u64, u64, u32, u32)]) -> Vec<u8> {
+        let mut b = Vec::new();
+        b.extend_from_slice(&entry_size.to_le_bytes());
+        b.extend_from_slice(&version.to_le_bytes());
+        for e in entries {
+            b.extend_from_slice(&e.0.to_le_bytes());
+            b.extend_from_slice(&e.1.to_le_bytes());
+            b.extend_from_slice(&e.2.to_le_bytes());
+            b.extend_from_slice(&e.3.to_le_bytes());
+        }
+        tag(MMAP, &b)
+    }
+    pub fn enc_vbe(mode: u16, seg: u16, off: u16, len: u16, control: &[u8], mode_info: &[u8]) -> Vec<u8> {
+        assert_eq!(control.len(), 512);
+        assert_eq!(mode_info.len(), 256);
+        let mut b = Vec::new();
+        for x in [mode, seg, off, len] {
+            b.extend_from_slice(&x.to_le_bytes());
+        }
+        b.extend_from_slice(control);
+        b.extend_from_slice(mode_info);
+        tag(VBE, &b)
+    }
+    pub fn enc_framebuffer(addr: u64, pitch: u32, width: u32, height: u32, bpp: u8, typ: u8, color_info: &[u8]) -> Vec<u8> {
+        let mut b = Vec::new();
+        b.extend_from_slice(&addr.to_le_bytes());
+        for x in [pitch, width, height] {
+            b.extend_from_slice(&x.to_le_bytes());
+        }
+        b.push(bpp);
+        b.push(typ);
+        b.extend_from_slice(&[0, 0]);
+        b.extend_from_slice(color_info);
+        tag(FRAMEBUFFER, &b)
+    }
+    pub fn enc_palette(colors: &[(u8, u8, u8)]) -> Vec<u8> {
+        let mut b = Vec::new();
+        b.extend_from_slice(&(colors.len() as u16).to_le_bytes());
+        for c in colors {
+            b.extend_from_slice(&[c.0, c.1, c.2]);
+        }
+        b
+    }
+    pub fn enc_elf(num: u32, entsize: u32, shndx: u32, sections: &[u8]) -> Vec<u8> {
+        let mut b = Vec::new();
+        for x in [num, entsize, shndx] {
+            b.extend_from_slice(&x.to_le_bytes());
+        }
+        b.extend_from_slice(sections);
+        tag(ELF, &b)
+    }
+    #[allow(clippy::too_many_arguments)]
+    pub fn enc_apm(version: u16, cseg: u16, offset: u32, cseg_16: u16, dseg: u16, flags: u16, cseg_len: u16, cseg_16_len: u16, dseg_len: u16) -> Vec<u8> {
+        let mut b = Vec::new();
+        b.extend_from_slice(&version.to_le_bytes());
+        b.extend_from_slice(&cseg.to_le_bytes());
+        b.extend_from_slice(&offset.to_le_bytes());
+        for x in [cseg_16, dseg, flags, cseg_len, cseg_16_len, dseg_len] {
+            b.extend_from_slice(&x.to_le_bytes());
+        }
+        tag(APM, &b)
+    }
+    pub fn enc_u32(typ: u32, v: u32) -> Vec<u8> {
+        tag(typ, &v.to_le_bytes())
+    }
+    pub fn enc_u64(typ: u32, v: u64) -> Vec<u8> {
+        tag(typ, &v.to_le_bytes())
+    }
+    pub fn enc_smbios(major: u8, minor: u8, tables: &[u8]) -> Vec<u8> {
+        let mut b = vec![major, minor, 0, 0, 0, 0, 0, 0];
+        b.extend_from_slice(tables);
+        tag(SMBIOS, &b)
+    }
+    pub fn enc_rsdp1(checksum: u8, oem: &[u8; 6], revision: u8, rsdt: u32) -> Vec<u8> {
+        let mut b = Vec::new();
+        b.extend_from_slice(b"RSD PTR ");
+        b.push(checksum);
+        b.extend_from_slice(oem);
+        b.push(revision);
+        b.extend_from_slice(&rsdt.to_le_bytes());
+        tag(ACPI1, &b)
+    }
+    #[allow(clippy::too_many_arguments)]
+    pub fn enc_rsdp2(checksum: u8, oem: &[u8; 6], revision: u8, rsdt: u32, length: u32, xsdt: u64, ext_checksum: u8) -> Vec<u8> {
+        let mut b = Vec::new();
+        b.extend_from_slice(b"RSD PTR ");
+        b.push(checksum);
+        b.extend_from_slice(oem);
+        b.push(revision);
+        b.extend_from_slice(&rsdt.to_le_bytes());
+        b.extend_from_slice(&length.to_le_bytes());
+        b.extend_from_slice(&xsdt.to_le_bytes());
+        b.push(ext_checksum);
+        b.extend_from_slice(&[0, 0, 0]);
+        tag(ACPI2, &b)
+    }
+    pub fn enc_efi_mmap(desc_size: u32, version: u32, map: &[u8]) -> Vec<u8> {
+        let mut b = Vec::new();
+        b.extend_from_slice(&desc_size.to_le_bytes());
+        b.extend_from_slice(&version.to_le_bytes());
+        b.extend_from_slice(map);
+        tag(EFI_MMAP, &b)
+    }
+    /// One EFI memory descriptor (40 bytes): type, pad, phys, virt, pages, attribute.
+    pub fn enc_efi_desc(typ: u32, phys: u64, virt: u64, pages: u64, att: u64) -> Vec<u8> {
+        let mut b = Vec::new();
+        b.extend_from_slice(&typ.to_le_bytes());
+        b.extend_from_slice(&[0; 4]);
+        for x in [phys, virt, pages, att] {
+            b.extend_from_slice(&x.to_le_bytes());
+        }
+        b
+    }
+    /// ELF64 section header (64 bytes).
+    #[allow(clippy::too_many_arguments)]
+    pub fn enc_shdr64(name: u32, typ: u32, flags: u64, addr: u64, offset: u64, size: u64, link: u32, info: u32, align: u64, entsize: u64) -> Vec<u8> {
+        let mut b = Vec::new();
+        b.extend_from_slice(&name.to_le_bytes());
+        b.extend_from_slice(&typ.to_le_bytes());
+        for x in [flags, addr, offset, size] {
+            b.extend_from_slice(&x.to_le_bytes());
+        }
+        b.extend_from_slice(&link.to_le_bytes());
+        b.extend_from_slice(&info.to_le_bytes());
+        b.extend_from_slice(&align.to_le_bytes());
+        b.extend_from_slice(&entsize.to_le_bytes());
+        b
+    }
+    /// ELF32 section header (40 bytes).
+    #[allow(clippy::too_many_arguments)]
+    pub fn enc_shdr32(name: u32, typ: u32, flags: u32, addr: u32, offset: u32, size: u32, link: u32, info: u32, align: u32, entsize: u32) -> Vec<u8> {
+        let mut b = Vec::new();
+        for x in [name, typ, flags, addr, offset, size, link, info, align, entsize] {
+            b.extend_from_slice(&x.to_le_bytes());
+        }
+        b
+    }
+
+    /// RSDP checksum byte that makes `bytes` sum to zero, given all other bytes.
+    pub fn fix_sum(bytes: &mut [u8], at: usize) {
+        bytes[at] = 0;
+        let s: u8 = bytes.iter().fold(0u8, |a, b| a.wrapping_add(*b));
+        bytes[at] = 0u8.wrapping_sub(s);
+    }
+
+    /// A spec-conformant sample image of kind `t` with marker bytes in every
+    /// free field; `salt` varies the markers, `n` scales the variable part.
+    pub fn sample(t: u32, salt: usize, n: usize) -> Vec<u8> {
+        match t {
+            END => end_tag(),
+            CMDLINE | BOOTLOADER => {
+                let mut s: Vec<u8> = (0..n).map(|i| b"abcdefghijklmnopqrstuvwxyz"[(i + salt) % 26]).collect();
+                s.push(0);
+                enc_string(t, &s)
+            }
+            MODULE => {
+                let mut s: Vec<u8> = (0..n).map(|i| b"mnopqrstuvwxyzabcdefghijkl"[(i + salt) % 26]).collect();
+                s.push(0);
+                enc_module(0x0010_0000 + salt as u32 * 0x1000, 0x0020_0000 + salt as u32 * 0x1000 + 0x123, &s)
+            }
+            MEMINFO => enc_meminfo(0x0000_027F + salt as u32, 0x0001_FB80 + salt as u32 * 7),
+            BOOTDEV => enc_bootdev(0x80 + salt as u32, 0x0102_0304 ^ salt as u32, 0xA1B2_C3D4),
+            MMAP => {
+                let e: Vec<(u64, u64, u32, u32)> = (0..n).map(|i| (0x1000 * (i as u64 + 1) + salt as u64, 0x0800_0000_0000 + 0x333 * (i as u64 + 1), (i as u32 % 5) + 1, 0)).collect();
+                enc_mmap(24, 0, &e)
+            }
+            VBE => {
+                let mut control: Vec<u8> = (0..512).map(|i| marker(i, salt + 11)).collect();
+                let mut mode: Vec<u8> = (0..256).map(|i| marker(i, salt + 13)).collect();
+                control[0..4].copy_from_slice(b"VESA");
+                mode[27] = (salt % 8) as u8; // memory model: a defined value
+                enc_vbe(0x4118 + salt as u16, 0xC000, 0x5A10, 0x0193, &control, &mode)
+            }
+            FRAMEBUFFER => match n % 3 {
+                0 => enc_framebuffer(0xFD00_0000 + salt as u64, 4096, 1024, 768, 32, 1, &[16, 8, 8, 8, 0, 8]),
+                1 => enc_framebuffer(0xB8000, 160, 80, 25, 16, 2, &[]),
+                _ => enc_framebuffer(0xA0000 + salt as u64, 320, 320, 200, 8, 0, &enc_palette(&[(0x11, 0x22, 0x33), (0xF4, 0xF5, 0xF6)])),
+            },
+            ELF => {
+                let mut s = Vec::new();
+                for i in 0..n.max(1) {
+                    s.extend(enc_shdr64(i as u32, 1 + (i as u32 % 3), 2 | (i as u64 & 1), 0xFFFF_8000_0010_0000 + 0x1000 * i as u64, 0x1000 * i as u64, 0x0800 + i as u64, 0, 0, 16, 0));
+                }
+                enc_elf(n.max(1) as u32, 64, 0, &s)
+            }
+            APM => enc_apm(0x0102, 0xF000, 0x0000_8A4B, 0xF001, 0x0040, 0x0003, 0xFFF0, 0xFFF1, 0x0FF2),
+            EFI32 => enc_u32(t, 0x7FE8_1018 + salt as u32),
+            EFI64 => enc_u64(t, 0x0000_0001_7FE8_1018 + salt as u64),
+            SMBIOS => enc_smbios(3, 2 + salt as u8, &body(n, salt + 5)),
+            ACPI1 => {
+                let mut v = enc_rsdp1(0, b"BOCHS ", 0, 0x07FE_14E0 + salt as u32);
+                fix_sum(&mut v[8..28], 8);
+                v
+            }
+            ACPI2 => {
+                let mut v = enc_rsdp2(0, b"VRTUAL", 2, 0x07FE_14E0, 36, 0x0000_0000_7FE1_5000 + salt as u64, 0);
+                fix_sum(&mut v[8..28], 8);
+                fix_sum(&mut v[8..44], 32);
+                v
+            }
+            NETWORK => tag(NETWORK, &body(n, salt + 7)),
+            EFI_MMAP => {
+                let mut m = Vec::new();
+                for i in 0..n {
+                    m.extend(enc_efi_desc(7 - (i as u32 % 4), 0x1000 * (i as u64 + 1), 0, 16 + i as u64, 0xF));
+                    m.extend_from_slice(&[0xEE; 8]); // desc_size 48: 8 bytes the firmware reserves
+                }
+                enc_efi_mmap(48, 1, &m)
+            }
+            EFI_BS => tag(EFI_BS, &[]),
+            EFI32_IH => enc_u32(t, 0x7E5A_3018 + salt as u32),
+            EFI64_IH => enc_u64(t, 0x0000_0002_7E5A_3018 + salt as u64),
+            LOAD_BASE => enc_u32(t, 0x0020_0000 + salt as u32 * 0x1000),
+            other => tag(other, &body(n, salt + 9)),
+        }
+    }
+}
